@@ -166,3 +166,12 @@ def count_nonempty(ex, se, f):
     se.facts.append(C(0) == 0)
     se.facts.append(z3.ForAll([j], z3.Implies(j >= 0, C(j + 1) == C(j) + z3.If(val.t == ops.as_u(d), 0, 1)), patterns=[C(j + 1)]))
     return VFunc("uf", name="C", argtys=[parse_ty("int")], retty=parse_ty("int"), fns=[C])
+
+
+@spec_fn("old_value")
+def old_value(ex, se, p):
+    """The value a box held in the pre-state (the box may have been reached through post-state structure)."""
+    if isinstance(p, VOpt):
+        p = p.val
+    se_old = type(se)(se.old, dict(se.env), ex, se.ctx, se.old)
+    return ex.sp_load(se_old, p.t, "Payload", "value")
